@@ -229,6 +229,9 @@ class BorrowReader(object):
                 'BORROWED-%d-%s' % (self.idx, mibname)
         if ans == 'error':
             raise error.PySmiReaderError('injected borrower error %s' % mibname, reader=self)
+        if ans == 'plainerror':
+            # what a strict reader (ignoreErrors=False) raises for a directory / archive it cannot open
+            raise error.PySmiError('injected plain package error %s' % mibname)
         raise error.PySmiReaderFileNotFoundError('no %s' % mibname, reader=self)
 
 
